@@ -6,6 +6,7 @@ pub mod c06;
 pub mod c07;
 pub mod req;
 pub mod c14;
+pub mod c15;
 pub mod c16;
 pub mod c20;
 
@@ -13,11 +14,13 @@ pub fn run(ctx: &mut Ctx, suite: &str) {
     match suite {
         "c01" => c01::run(ctx),
         "c02" => c02::run(ctx),
+        "c14r" => c02::run_c14r(ctx),
         "c03" => c03::run(ctx),
         "c06" => c06::run(ctx),
         "c08" => c06::run_c08(ctx),
         "c07" => c07::run(ctx),
         "c14" => c14::run(ctx),
+        "c15" => c15::run(ctx),
         "c16" => c16::run(ctx),
         "c20" => c20::run(ctx),
         _ => {
@@ -31,11 +34,13 @@ pub fn run(ctx: &mut Ctx, suite: &str) {
 pub fn replay(ctx: &mut Ctx, tag: &str, args: &[&str]) {
     match tag {
         "c01" | "c02" | "c03" | "c15r" | "c14r" => req::case(ctx, tag, args[0], args[1], args[2], args[3], args[4], args[5]),
+        "c01s" => req::case_seq(ctx, args[0], args[1], args[2], args[3], args[4]),
         "c06" | "c08" => c06::case(ctx, tag, args),
         "c07" => c07::case(ctx, args[0], args[1], args[2], args[3], args[4]),
         "c14" => c14::case_ops(ctx, args[0], args[1]),
         "c14a" => c14::case_ascii(ctx, args[0], args[1]),
         "c14n" => c14::case_num(ctx, args[0], args[1]),
+        "c15s" => c15::case_set(ctx, args),
         "c16n" => c16::case_new(ctx, args[0]),
         "c16a" => c16::case_add(ctx, args[0], args[1]),
         "c20e" => c20::case_error(ctx, args[0]),
